@@ -57,6 +57,9 @@ def row_tensor_cases(draw, degenerate_bias=False, qtypes=("qint2", "qint4"), min
         "classes": draw(st.lists(st.sampled_from(pool), min_size=1, max_size=8)),
         "mags": draw(st.lists(st.integers(-6, 4), min_size=1, max_size=5)),
         "seed": draw(st.integers(0, 2**20)),
+        # memory layout of the source (values unchanged): weights reach quantize_weight transposed (Conv1D-style
+        # checkpoints), permuted, channels_last, sliced out of fused matrices
+        "layout": list(draw(st.tuples(st.sampled_from(["contig", "contig", "contig", "perm", "slice", "offset"]), st.integers(0, 23)))),
     }
 
 
@@ -90,4 +93,7 @@ def build(case):
         flat[order[pos : pos + n]] = gen.make_row(name, n, dtype, g, mag)
         pos += n
     x = gen.clamp_finite(flat.reshape(shape), dtype)
+    layout = case.get("layout")
+    if layout and layout[0] != "contig":
+        x = gen.apply_layout(x, tuple(layout))
     return x, gid, ng, names
